@@ -11,7 +11,7 @@ open YaegiVerif.Method
     16a5ac7 (a value stored in an interface is copied), 32d4f06 (the receiver of a method selected on
     the value held by an interface is reached at each call), f4dfaf4 (several fields at the shallowest
     depth: ambiguous), 79ed061 (implements tests the receiver kind), 5c3b0c5 (type switch cases checked,
-    pointer-receiver rejection for own methods only), bbd3913 (assertion to a host interface wraps the
+    pointer-receiver rejection for own methods only), 6b1f98f (and for promoted methods that need a pointer), bbd3913 (assertion to a host interface wraps the
     held value) -/
 def facts : Facts :=
   { defaultSwap := false,
@@ -27,6 +27,7 @@ def facts : Facts :=
     fieldAmbiguityCheck := true,
     implementsChecksRecv := true,
     assertPtrOwnOnly := true,
+    assertPtrNeedsPtr := true,
     tswitchCasesChecked := true,
     assertHostWrapsHeld := true,
     wrapperUsesMethodSet := true,
@@ -56,6 +57,7 @@ def oldFacts : Facts :=
     fieldAmbiguityCheck := false,
     implementsChecksRecv := false,
     assertPtrOwnOnly := false,
+    assertPtrNeedsPtr := false,
     tswitchCasesChecked := false,
     assertHostWrapsHeld := false,
     wrapperUsesMethodSet := true,
@@ -84,7 +86,8 @@ def sourceHashes : List (String × String) :=
    ("itype.methodDepth", "1d0e71e467a5ef05"),
    ("itype.methodCount", "a61f4bc597b944e2"),
    ("itype.fieldCount", "b30bbc94ae86fc3a"),
-   ("itype.needsPtrFor", "4e3dced6269f46e3"),
+   ("itype.needsPtrFor", "eb6e83868a524fb2"),
+   ("itype.needsPtrForMethod", "43e0efafed772f90"),
    ("itype.methods", "5ee74f81a5c4777a"),
    ("methodSet.contains", "4962c458fd56665c"),
    ("itype.implements", "4f9ec481094a6afb"),
@@ -105,12 +108,12 @@ def sourceHashes : List (String × String) :=
    ("genInterfaceWrapper", "39c789f3e29ad824"),
    ("genInterfaceWrapperValue", "d62e22eba6a3bbbe"),
    ("copyDeferArg", "d8586ba1ea695e54"),
-   ("typecheck.typeAssertionExpr", "8b7c9896676483c6"),
+   ("typecheck.typeAssertionExpr", "e5aefda1546a1260"),
    ("genDestValue", "6d332c89aa45b5ab"),
    ("genValueInterface", "1ef4b98ccbd7c706"),
    ("genValueRecv", "a3dad7fc975e9eb7"),
    ("getWrapper", "1311018b7c7efb25"),
-   ("cfg.go case selectorExpr", "fa5a2fe359c5e2de"),
+   ("cfg.go case selectorExpr", "5240a4a7eee28842"),
    ("cfg.go pre-order case switchStmt, typeSwitch", "773e4a50ec016090"),
    ("cfg.go post-order case switchStmt", "93061192f5364e43"),
    ("cfg.go post-order case typeSwitch", "3c67baf823d5a872"),
